@@ -22,6 +22,7 @@ type Message struct {
 	source  []byte
 	seen    bool
 	el      *list.Element // This message in Store.messages
+	gone    bool          // Removed before the size enforcer registered it; owned by the enforcer.
 }
 
 var _ storage.Message = &Message{}
